@@ -207,7 +207,7 @@ inline Model make_model(const World& w, int norm, int additive, int data_kind)
 struct Setup
 {
   int N = 1, sym = 1, use_subset_sens = 1;
-  int prior = 0; // 0 none, 1 quadratic beta=0.1, 2 quadratic beta=10, 3 RDP(beta=1,gamma=2,eps=0.1), 4 quadratic beta=0.5 with kappa image
+  int prior = 0; // 0 none, 1 quadratic beta=0.1, 2 quadratic beta=10, 3 RDP(beta=1,gamma=2,eps=0.1), 4 quadratic beta=0.5 with kappa image, 6 quadratic beta=0.5 with a kappa image that contains zeros
 };
 inline shared_ptr<GeneralisedPrior<Target>> make_prior(const World& w, int prior)
 {
@@ -220,6 +220,15 @@ inline shared_ptr<GeneralisedPrior<Target>> make_prior(const World& w, int prior
       auto q = new QuadraticPrior<float>(false, 0.5F);
       std::vector<float> k(w.nv);
       for (size_t j = 0; j < w.nv; ++j) k[j] = 0.5F + 0.25F * float(j % 5);
+      q->set_kappa_sptr(to_image(w, k));
+      p.reset(q);
+    }
+  else if (prior == 6)
+    { // kappa with exact zeros, also at voxels that no LOR sees (voxel 0 is an image corner outside the field of view):
+      // the prior's curvature vanishes there, so a denominator has to be kept positive by other means
+      auto q = new QuadraticPrior<float>(false, 0.5F);
+      std::vector<float> k(w.nv);
+      for (size_t j = 0; j < w.nv; ++j) k[j] = (j % 3 == 0) ? 0.F : 1.F;
       q->set_kappa_sptr(to_image(w, k));
       p.reset(q);
     }
